@@ -91,27 +91,11 @@ func init() {
 	})
 	register("c11", "order independence / well-formedness / topological orderings on Room_gen.tla queries", func(a *args) error {
 		// "the same on every run of the process": a second process resolves the batch in the opposite order (what it
-		// has resolved before a given query is what this process resolves after it); the results must coincide
+		// has resolved before a given query is what this process resolves after it) and, where event IDs are chosen
+		// by the sender, under IDs that no other query of the batch uses; the results must coincide
 		other, err := c11OtherProcess(a)
 		if err != nil {
 			return err
-		}
-		// this process resolves the first query of every version with sender-chosen IDs before anything else
-		if recs, err := readRecords(a.in); err == nil {
-			for _, i := range c11FirstOfVersion(recs) {
-				raw := recs[i]
-				safely(i, func() Result {
-					var q resQuery
-					if json.Unmarshal(raw, &q) == nil {
-						m := materialise(&q)
-						auth := c11AuthOf(m)
-						for _, entry := range c11Entries(algoOf(q.Ver)) {
-							c11Resolve(m, entry, q.Sets, auth)
-						}
-					}
-					return Result{OK: true}
-				})
-			}
 		}
 		return replayAll(a, func(i int, raw json.RawMessage) Result { return c11Replay(i, raw, int(a.seed), other) })
 	})
@@ -166,7 +150,7 @@ func stateKeyOf(e roomEvent) string {
 }
 
 // sha1IDs returns n event IDs whose SHA-1 order realises the given ranks (v1 tie-break).
-func sha1IDs(q *resQuery) map[int]string {
+func sha1IDs(q *resQuery, own string) map[int]string {
 	n := len(q.Events)
 	type cand struct {
 		id  string
@@ -174,7 +158,7 @@ func sha1IDs(q *resQuery) map[int]string {
 	}
 	cs := make([]cand, n)
 	for i := range cs {
-		id := fmt.Sprintf("$ev%02dx%d:hs1", i, len(q.Events))
+		id := fmt.Sprintf("$ev%02dx%d%s:hs1", i, len(q.Events), own)
 		cs[i] = cand{id, sha1.Sum([]byte(id))}
 	}
 	sort.Slice(cs, func(a, b int) bool { return string(cs[a].sum[:]) < string(cs[b].sum[:]) })
@@ -188,18 +172,19 @@ func sha1IDs(q *resQuery) map[int]string {
 }
 
 func materialise(q *resQuery) *roomM {
-	m := assignIDs(q)
+	m := assignIDs(q, "")
 	m.build()
 	return m
 }
 
-// assignIDs chooses the event IDs of a query (no event is built yet).
-func assignIDs(q *resQuery) *roomM {
+// assignIDs chooses the event IDs of a query (no event is built yet).  own: "" or a tag that makes the sender-chosen
+// IDs of room versions 1 and 2 the query's own.
+func assignIDs(q *resQuery, own string) *roomM {
 	m := &roomM{q: q, ids: map[int]string{}, pdus: map[int]gmsl.PDU{}, byID: map[string]int{}, types: map[int]string{}}
 	ver := q.Ver
 	var v1ids map[int]string
 	if ver == "1" {
-		v1ids = sha1IDs(q)
+		v1ids = sha1IDs(q, own)
 	}
 	// Event IDs.  Room versions 1 and 2: the sender chooses the ID, so different events may carry one ID; the IDs
 	// are derived from the model's event number / rank only, and the queries of one batch deliberately reuse them
@@ -212,7 +197,7 @@ func assignIDs(q *resQuery) *roomM {
 		case ver == "1":
 			m.ids[e.ID] = v1ids[e.ID]
 		case isFormatV1(ver):
-			m.ids[e.ID] = fmt.Sprintf("$e%03d:hs1", e.IDR)
+			m.ids[e.ID] = fmt.Sprintf("$e%03d%s:hs1", e.IDR, own)
 		default:
 			m.ids[e.ID] = eventID43(fmt.Sprintf("e%03d_%s", e.IDR, m.digest(e)))
 		}
@@ -678,11 +663,14 @@ func c11History(a *args) error {
 	if err != nil {
 		return err
 	}
-	// Room versions with sender-chosen event IDs (the batch reuses IDs for different events): the first process has
-	// resolved the first query of the version before all others (c11FirstOfVersion); this process begins with the
-	// queries that give the most of those IDs another content and goes through them one at a time.  All other
-	// queries: from the last to the first.
-	reused, rest := c11HistoryOrder(recs)
+	// Room versions with sender-chosen event IDs: the first process reuses one set of IDs for the events of all
+	// queries (different events under one ID from call to call); this process gives every query IDs of its own
+	// (same lexicographic / SHA-1 order), so nothing it has resolved before can be mistaken for an event of the
+	// query.  All queries: from the last to the first.
+	rest := make([]int, len(recs))
+	for i := range rest {
+		rest[i] = i
+	}
 	one := func(i int) {
 		out := map[string][]int{}
 		func() {
@@ -691,22 +679,14 @@ func c11History(a *args) error {
 			if json.Unmarshal(recs[i], &q) != nil {
 				return
 			}
-			m := materialise(&q)
+			m := assignIDs(&q, fmt.Sprintf("q%d", i))
+			m.build()
 			auth := c11AuthOf(m)
 			for _, entry := range c11Entries(algoOf(q.Ver)) {
 				out[entry] = c11Resolve(m, entry, q.Sets, auth)
 			}
 		}()
 		tw.emit(map[string]interface{}{"i": i, "r": out})
-	}
-	// (the head of that order one query at a time - what a process resolves first is what matters most -, the
-	// remainder and the other versions in parallel)
-	head := min(len(reused), 48)
-	for _, i := range reused[:head] {
-		one(i)
-	}
-	for k := len(reused) - 1; k >= head; k-- {
-		rest = append(rest, reused[k]) // taken from the end of rest: in the order of reused
 	}
 	par := max(1, a.par)
 	var wg sync.WaitGroup
@@ -726,72 +706,6 @@ func c11History(a *args) error {
 	}
 	wg.Wait()
 	return tw.close()
-}
-
-// eventSig is the content of a model event without its references.
-func eventSig(q *resQuery, e roomEvent) string {
-	var us []string
-	for u, r := range e.PLU {
-		us = append(us, fmt.Sprintf("%s=%d", u, r))
-	}
-	sort.Strings(us)
-	return fmt.Sprint(e.Type, "|", e.Sender, "|", e.SKey, "|", e.Membership, "|", us, "|", e.pud(), "|", e.JR, "|", e.TS, "|", e.Depth)
-}
-
-// c11FirstOfVersion: per room version with sender-chosen event IDs, the index of its first query in the batch.
-func c11FirstOfVersion(recs []json.RawMessage) map[string]int {
-	first := map[string]int{}
-	for i, raw := range recs {
-		var q struct {
-			Ver string `json:"ver"`
-		}
-		if json.Unmarshal(raw, &q) == nil && isFormatV1(q.Ver) {
-			if _, ok := first[q.Ver]; !ok {
-				first[q.Ver] = i
-			}
-		}
-	}
-	return first
-}
-
-// c11HistoryOrder: the order in which the second process resolves the batch (see c11History).
-func c11HistoryOrder(recs []json.RawMessage) (reused []int, rest []int) {
-	first := c11FirstOfVersion(recs)
-	ref := map[string]map[string]string{} // version -> event ID -> content in the version's first query
-	sigs := func(raw json.RawMessage) (string, map[string]string) {
-		var q resQuery
-		if json.Unmarshal(raw, &q) != nil {
-			return "", nil
-		}
-		if !isFormatV1(q.Ver) {
-			return q.Ver, nil
-		}
-		m := assignIDs(&q)
-		out := map[string]string{}
-		for _, e := range q.Events {
-			out[m.ids[e.ID]] = eventSig(&q, e)
-		}
-		return q.Ver, out
-	}
-	for ver, i := range first {
-		_, ref[ver] = sigs(recs[i])
-	}
-	differing := map[int]int{}
-	for i, raw := range recs {
-		ver, sg := sigs(raw)
-		if sg == nil {
-			rest = append(rest, i)
-			continue
-		}
-		reused = append(reused, i)
-		for id, c := range sg {
-			if c0, ok := ref[ver][id]; ok && c0 != c {
-				differing[i]++
-			}
-		}
-	}
-	sort.SliceStable(reused, func(a, b int) bool { return differing[reused[a]] > differing[reused[b]] })
-	return reused, rest
 }
 
 // c11OtherProcess runs c11hist on the same batch in a child process and returns its results per record.
@@ -987,7 +901,7 @@ func c11Replay(i int, raw json.RawMessage, seed int, other map[int]map[string][]
 		}
 		// ... and on every run of the process: a second process that resolved the batch in the opposite order
 		if o, ok := other[recIndex][entry]; ok && !sameInts(o, ref) {
-			return fail(entry, "other-process-history", ref, o, fmt.Sprintf("this process returns %v, a second process that resolved the other queries of the batch before this one returns %v: the result depends on what the process resolved earlier", ref, o))
+			return fail(entry, "other-process-history", ref, o, fmt.Sprintf("this process returns %v; a second process that resolved the batch in the opposite order (and, in room versions with sender-chosen event IDs, every query under IDs of its own) returns %v: the result depends on what the process resolved earlier", ref, o))
 		}
 	}
 	// orderings: every ordering returned for this acyclic event set is a permutation of the distinct inputs in
